@@ -1,0 +1,183 @@
+//! Verification hooks, compiled only with `--cfg arroy_verif`.
+//!
+//! Nothing in here changes the behaviour of arroy: the atomics below wrap the
+//! std atomics one-to-one and call a thread-local callback before each operation
+//! (threads without a callback run at full speed), and the rest re-exports
+//! crate-private items so that an external harness can drive them directly.
+
+use std::cell::RefCell;
+
+pub use crate::parallel::ConcurrentNodeIds;
+pub use crate::spaces::verif_kernels as kernels;
+
+type Hook = Box<dyn FnMut(&'static str)>;
+
+thread_local! {
+    static HOOK: RefCell<Option<Hook>> = const { RefCell::new(None) };
+}
+
+/// Installs (or removes) the yield-point callback of the calling thread.
+pub fn set_hook(hook: Option<Hook>) {
+    HOOK.with(|h| *h.borrow_mut() = hook);
+}
+
+/// A yield point: calls the callback of the current thread, if any.
+#[inline]
+pub fn enter(label: &'static str) {
+    HOOK.with(|h| {
+        if let Ok(mut h) = h.try_borrow_mut() {
+            if let Some(h) = h.as_mut() {
+                h(label)
+            }
+        }
+    });
+}
+
+/// Drop-in replacements of the std atomics used by `ConcurrentNodeIds`.
+pub mod atomic {
+    pub use std::sync::atomic::Ordering;
+
+    use super::enter;
+
+    macro_rules! int_atomic {
+        ($name:ident, $std:ty, $prim:ty) => {
+            #[derive(Debug, Default)]
+            pub struct $name($std);
+
+            impl $name {
+                pub fn new(v: $prim) -> Self {
+                    Self(<$std>::new(v))
+                }
+                pub fn into_inner(self) -> $prim {
+                    self.0.into_inner()
+                }
+                pub fn get_mut(&mut self) -> &mut $prim {
+                    self.0.get_mut()
+                }
+                pub fn load(&self, o: Ordering) -> $prim {
+                    enter(concat!(stringify!($name), "::load"));
+                    self.0.load(o)
+                }
+                pub fn store(&self, v: $prim, o: Ordering) {
+                    enter(concat!(stringify!($name), "::store"));
+                    self.0.store(v, o)
+                }
+                pub fn swap(&self, v: $prim, o: Ordering) -> $prim {
+                    enter(concat!(stringify!($name), "::swap"));
+                    self.0.swap(v, o)
+                }
+                pub fn fetch_add(&self, v: $prim, o: Ordering) -> $prim {
+                    enter(concat!(stringify!($name), "::fetch_add"));
+                    self.0.fetch_add(v, o)
+                }
+                pub fn fetch_sub(&self, v: $prim, o: Ordering) -> $prim {
+                    enter(concat!(stringify!($name), "::fetch_sub"));
+                    self.0.fetch_sub(v, o)
+                }
+                pub fn fetch_max(&self, v: $prim, o: Ordering) -> $prim {
+                    enter(concat!(stringify!($name), "::fetch_max"));
+                    self.0.fetch_max(v, o)
+                }
+                pub fn fetch_min(&self, v: $prim, o: Ordering) -> $prim {
+                    enter(concat!(stringify!($name), "::fetch_min"));
+                    self.0.fetch_min(v, o)
+                }
+                pub fn compare_exchange(
+                    &self,
+                    c: $prim,
+                    n: $prim,
+                    s: Ordering,
+                    f: Ordering,
+                ) -> Result<$prim, $prim> {
+                    enter(concat!(stringify!($name), "::compare_exchange"));
+                    self.0.compare_exchange(c, n, s, f)
+                }
+                pub fn compare_exchange_weak(
+                    &self,
+                    c: $prim,
+                    n: $prim,
+                    s: Ordering,
+                    f: Ordering,
+                ) -> Result<$prim, $prim> {
+                    // never fails spuriously here: the explored schedules are the strong ones
+                    enter(concat!(stringify!($name), "::compare_exchange_weak"));
+                    self.0.compare_exchange(c, n, s, f)
+                }
+                pub fn fetch_update<F: FnMut($prim) -> Option<$prim>>(
+                    &self,
+                    s: Ordering,
+                    f: Ordering,
+                    mut func: F,
+                ) -> Result<$prim, $prim> {
+                    let mut prev = self.load(f);
+                    while let Some(next) = func(prev) {
+                        match self.compare_exchange(prev, next, s, f) {
+                            Ok(x) => return Ok(x),
+                            Err(now) => prev = now,
+                        }
+                    }
+                    Err(prev)
+                }
+            }
+        };
+    }
+
+    int_atomic!(AtomicU32, std::sync::atomic::AtomicU32, u32);
+    int_atomic!(AtomicU64, std::sync::atomic::AtomicU64, u64);
+    int_atomic!(AtomicUsize, std::sync::atomic::AtomicUsize, usize);
+
+    #[derive(Debug, Default)]
+    pub struct AtomicBool(std::sync::atomic::AtomicBool);
+
+    impl AtomicBool {
+        pub fn new(v: bool) -> Self {
+            Self(std::sync::atomic::AtomicBool::new(v))
+        }
+        pub fn into_inner(self) -> bool {
+            self.0.into_inner()
+        }
+        pub fn get_mut(&mut self) -> &mut bool {
+            self.0.get_mut()
+        }
+        pub fn load(&self, o: Ordering) -> bool {
+            enter("AtomicBool::load");
+            self.0.load(o)
+        }
+        pub fn store(&self, v: bool, o: Ordering) {
+            enter("AtomicBool::store");
+            self.0.store(v, o)
+        }
+        pub fn swap(&self, v: bool, o: Ordering) -> bool {
+            enter("AtomicBool::swap");
+            self.0.swap(v, o)
+        }
+        pub fn fetch_and(&self, v: bool, o: Ordering) -> bool {
+            enter("AtomicBool::fetch_and");
+            self.0.fetch_and(v, o)
+        }
+        pub fn fetch_or(&self, v: bool, o: Ordering) -> bool {
+            enter("AtomicBool::fetch_or");
+            self.0.fetch_or(v, o)
+        }
+        pub fn compare_exchange(
+            &self,
+            c: bool,
+            n: bool,
+            s: Ordering,
+            f: Ordering,
+        ) -> Result<bool, bool> {
+            enter("AtomicBool::compare_exchange");
+            self.0.compare_exchange(c, n, s, f)
+        }
+        pub fn compare_exchange_weak(
+            &self,
+            c: bool,
+            n: bool,
+            s: Ordering,
+            f: Ordering,
+        ) -> Result<bool, bool> {
+            enter("AtomicBool::compare_exchange_weak");
+            self.0.compare_exchange(c, n, s, f)
+        }
+    }
+}
